@@ -190,7 +190,9 @@ def oracle_constructed_feasible(world, out, pid=ID):
     """The generating routes satisfy every constraint to the requested fraction, so a model whose k admits them
     cannot be infeasible: constraints (and the machinery acting on them) remove nothing but violating solutions."""
     vs = []
-    if not world.get("constructed_feasible") or out.get("construct_exc") or out.get("solve_exc") or out.get("system_exit"):
+    if out.get("construct_exc") or out.get("solve_exc") or out.get("system_exit") or out["solved"]:
+        return vs
+    if not mr.witness_feasible(world):
         return vs
     if sum(out.get("fired", {}).values()) > 0:
         return vs
